@@ -488,9 +488,10 @@ def judge(facts: Facts, act, counts: Counter, depth: int = 0):
                         counts['inconclusive'] += 1
                     else:
                         return ({'fact': 'by_expr', 'node': type(e).__name__, 'miss': r[0], 'scope': _scope_kind(facts, e)
-                                 if isinstance(e, (A.NaryExpr,)) and not isinstance(e, A.Var) else '-', 'where': where},
-                                f'expression `{e.format()}` = {show(v)}: value {r[2]} is not a member of the reported '
-                                f'bound {r[1]}')
+                                 if isinstance(e, (A.NaryExpr,)) and not isinstance(e, A.Var) else '-',
+                                 'path': ('identity' if facts.identity(e) else 'rounded') if isinstance(e, OP_NODES) else '-'},
+                                f'[{where}] expression `{e.format()}` = {show(v)}: value {r[2]} is not a member of the '
+                                f'reported bound {r[1]}')
             if isinstance(e, A.Var):
                 d = du.use_to_def.get(e)
                 if d is not None and d in by_def:
@@ -498,7 +499,7 @@ def judge(facts: Facts, act, counts: Counter, depth: int = 0):
                     r = facts.holds(by_def[d], v)
                     if r is not None and r[0] != 'inconclusive':
                         kind = 'phi' if type(d).__name__ == 'PhiDef' else type(d.site).__name__
-                        return ({'fact': 'by_def', 'node': kind, 'miss': r[0], 'scope': '-', 'where': where},
+                        return ({'fact': 'by_def', 'node': kind, 'miss': r[0], 'scope': '-'},
                                 f'read of `{e.name}` = {show(v)}: value {r[2]} is not a member of the bound {r[1]} reported '
                                 f'for its definition ({kind})')
             if isinstance(e, OP_NODES):
@@ -512,7 +513,7 @@ def judge(facts: Facts, act, counts: Counter, depth: int = 0):
                         got = to_x(v)
                         if not want.same(got, zero_sign=not cancel):
                             return ({'fact': 'round_is_identity', 'node': type(e).__name__, 'miss': 'changed',
-                                     'scope': idc, 'where': where},
+                                     'scope': idc},
                                     f'`{e.format()}`: round_is_identity is True under {idc} but operands '
                                     f'{[str(x) for x in vals]} give {got}, exact result {want}')
             last[e] = to_x(v) if xkey(v) is not None else None
@@ -522,7 +523,7 @@ def judge(facts: Facts, act, counts: Counter, depth: int = 0):
                 counts['cmp_def'] += 1
                 r = facts.holds(by_def[d], o.snap)
                 if r is not None and r[0] != 'inconclusive':
-                    return ({'fact': 'by_def', 'node': type(o.node).__name__, 'miss': r[0], 'scope': '-', 'where': where},
+                    return ({'fact': 'by_def', 'node': type(o.node).__name__, 'miss': r[0], 'scope': '-'},
                             f'definition of `{o.name}` at {type(o.node).__name__} = {show(o.snap)}: value {r[2]} is not a '
                             f'member of the reported bound {r[1]}')
         elif o.kind == 'call':
@@ -530,7 +531,7 @@ def judge(facts: Facts, act, counts: Counter, depth: int = 0):
     counts['cmp_ret'] += 1
     r = facts.holds(fa.fn_fmt.ret_fmt, act.result_snap)
     if r is not None and r[0] != 'inconclusive':
-        return ({'fact': 'ret_fmt', 'node': 'return', 'miss': r[0], 'scope': '-', 'where': where},
+        return ({'fact': 'ret_fmt', 'node': 'return', 'miss': r[0], 'scope': '-'},
                 f'result {show(act.result_snap)}: value {r[2]} is not a member of ret_fmt {r[1]}')
     return None
 
@@ -1207,7 +1208,12 @@ class Check(BaseCheck):
     def run_programs(self, r: ShardResult, k: int, m: int):
         idx = 0
         last = None
+        fams = os.environ.get('VERIF_C14_FAMS', '')
+        if fams and k == 0:
+            r.notes.append('CAP program families restricted by VERIF_C14_FAMS=' + fams)
         for label, fac in pg.space(self.tier):
+            if fams and label not in fams:
+                continue
             n = 0
             for prog in fac():
                 n += 1
